@@ -12,6 +12,18 @@ TB_A = ("Trusted: CPython operator dispatch on engine.forksym.Lin, z3 linear ari
         "Stubs: tqdm -> identity, stderr -> sink.")
 
 CHECKS = {
+    "C07": dict(
+        technique="symbolic execution of reconcile_lca / reconcile_thl(hgt=inf) + z3 LIA proof of minimality and uniqueness against all transfer-free reconciliations",
+        text="For every structural input in the bound, reconcile_lca equals an independent LCA mapping and z3 proves, for ALL dup, floss >= 0 and "
+             "0 <= spe <= dup, that it is no dearer than any transfer-free reconciliation of the oracle and strictly cheaper than every other one "
+             "when floss > 0; reconcile_thl with an infinite transfer cost, explored on the same symbols, returns exactly that cost/mapping.",
+        design="5/C07", engine="forksym"),
+    "C10": dict(
+        technique="paired bounded symbolic execution (affine costs, z3 LIA): relation between two algorithms' minima proven per joint path",
+        text="Two algorithms run on the same symbolic cost vector in one exploration; z3 proves ext <= base, unordered <= ordered, thl <= lca "
+             "(= when transfers are forbidden) and the single-family equalities for every cost vector of every joint path. No oracle is needed, so "
+             "inputs up to 10 object leaves / 8 species are used.",
+        design="5/C10", engine="forksym"),
     "C04": dict(
         technique="bounded symbolic execution (affine costs without coherence restriction, z3 LIA) of all seven algorithms; structural validity oracle on every path",
         text="All seven algorithms, both policies, binary inputs and (extended solvers) inputs with polytomies run on symbolic non-negative integer "
